@@ -25,7 +25,6 @@ theorem fieldLoop_inv {β : Type} (assign : β → Tag → Bytes → PR β) (P :
     rw [fieldLoop] at h
     split at h
     · cases h
-    · cases h
     · split at h
       · cases h
       · split at h
